@@ -306,6 +306,7 @@ def run_tcd(case, rng, obs, fail):
     scale = 1.0 / (c0 * c1)
     obs["field"] = fieldio.field_json(f)
     obs["scale"] = scale
+    obs["orient"] = f.orientation.array
     snap = (f.array.copy(), f.valid.copy())
     res = {}
     for meth in ("continuous", "berg-luescher"):
@@ -790,10 +791,7 @@ def compare(case, obs, rs):
         if "err" not in ro:
             dis.append("unknown method: impl refuses, model accepts")
         # orientation first: everything else builds on it
-        f_or = df.Field(qc.mesh, nvdim=3, value=np.array(obs["field"]["data"], dtype=object).astype(str).tolist() and
-                        np.array([[float(F(x)) for x in row] for row in obs["field"]["data"]]).reshape(*qc.mesh.n, 3)).orientation
-        cmp_values("orientation", f_or.array, rori["ok"]["data"], 1.0, dis)
-        fieldio.cmp_field("tcd continuous", qc, rc["ok"], dis, exact=False, rel=0.0, check_meta=True) if False else None
+        cmp_values("orientation", obs["orient"], rori["ok"]["data"], 1.0, dis)
         cmp_mesh("tcd continuous mesh", qc.mesh, rc["ok"]["mesh"], dis)
         if [bool(v) for v in qc.valid.reshape(-1)] != rc["ok"]["valid"]:
             dis.append("tcd continuous: validity differs")
